@@ -50,6 +50,11 @@ func c06Ops(sub bool) []string {
 		"func(k) { del(a[k]) }(0)", "func() { a[1] = 109 }()", "for i = 3 { c[i] = i }", "func() { for i = 2 { b[i] = a } }()",
 		// derived values that may share storage with their source: slices then append / merge, two results from one base
 		"b = a[0:6]", "c = b + {100: 100}", "c = b + 110", "c = a + {300: 1}; b = a + {400: 2}", "c = a + 111; b = a + 112", "a[50] = 1", "a = a + 113; b = a; a = a + 114; b = b + 115", "b = a[0:16]; b = b + 116", "b = a[0:10]", "c = b + 117", "b = a + 118; c = b + 119; b = b + 120",
+		// three-operand chains with an empty middle operand, results forked from one chain-built base
+		"c = b + [] + [121]", "c = a + [] + [122]; b = a + [] + [123]", "b = a + [124] + []; c = b + [] + [125]; b = b + [] + [126]",
+		// ten values collected by a variadic function, then another call with as many arguments
+		"c = func(..) { .. }(1, 2, 3, 4, 5, 6, 7, 8, 9, 10); b = c; func(..) { 0 }(10, 20, 30, 40, 50, 60, 70, 80, 90, 100)",
+		"vf = func(..) { .. }; b = vf(1, 2, 3, 4, 5, 6, 7, 8, 9, 10); c = vf(11, 12, 13, 14, 15, 16, 17, 18, 19, 20)", "c = func(p, ..) { [p, ..] }(a, 1, 2, 3, 4, 5, 6, 7, 8, 9, 10); len(func(p, ..) { .. }(0, 0, 0, 0, 0, 0, 0, 0, 0, 0, 0))",
 		// a container of an outer scope handed on from inside a function: variadic arguments, literals, locals, parameters
 		"c = func() { func(..) { .. }(a) }()", "c = func() { [a, {\"k\": a}] }()", "c = func() { x = a; x }()", "c = func() { func(p) { [p] }(a) }()", "c = func() { func(p, ..) { [p, ..] }(b, a) }()")
 	// containers whose representation is large although their length is back under the threshold
